@@ -57,6 +57,29 @@ Theorem C12_allow_missing_zero_fills_and_places_by_label :
 Proof.
   intros ds rows v Hu E. apply (import_allow_missing_iff R rO) in E. destruct E as [Ha ->]. apply place_partial; assumption.
 Qed.
+
+(* both flags together: the rows with unknown items are set aside, what is left is accepted exactly when its label combinations
+   are pairwise different, and is then placed under its labels with zeros elsewhere *)
+Theorem C12_allow_missing_and_allow_extra_accept_exactly :
+  forall ds rows v,
+  let kept := filter (fun r => known ds (r_labels R r)) rows in
+  import ds false false true true rows = Ok v <-> NoDup (map (r_labels R) kept) /\ v = place R rO ds kept.
+Proof.
+  intros ds rows v kept. rewrite (allow_extra_is_a_filter R rO). fold kept.
+  rewrite (import_allow_missing_iff R rO). split.
+  - intros [[Hn _] E]. split; assumption.
+  - intros [Hn E]. split; [|exact E]. constructor; [exact Hn|].
+    intros r Hr. unfold kept in Hr. apply filter_In in Hr. exact (proj2 Hr).
+Qed.
+
+(* allow_extra alone: what is left after setting the rows with unknown items aside must be complete *)
+Theorem C12_allow_extra_accepts_exactly :
+  forall ds rows v,
+  let kept := filter (fun r => known ds (r_labels R r)) rows in
+  import ds false false false true rows = Ok v <-> accepted R ds kept /\ v = place R rO ds kept.
+Proof.
+  intros ds rows v kept. rewrite (allow_extra_is_a_filter R rO). fold kept. apply (import_accepts_iff R rO).
+Qed.
 End G.
 Print Assumptions C12_default_settings_accept_exactly.
 Print Assumptions C12_allow_missing_accepts_exactly.
@@ -67,6 +90,8 @@ Print Assumptions C12_refuses_duplicated_combination.
 Print Assumptions C12_refuses_missing_combination.
 Print Assumptions C12_refuses_empty_value.
 Print Assumptions C12_allow_extra_ignores_rows_with_unknown_items.
+Print Assumptions C12_allow_missing_and_allow_extra_accept_exactly.
+Print Assumptions C12_allow_extra_accepts_exactly.
 
 (* before the repair: two identical rows with an unknown item made the import fail although extra rows are allowed *)
 Example ex_C12_dup_before_filter :
